@@ -1162,6 +1162,108 @@ def wl_all(scns, who=("tr1", "tr2", "tr3")):
         out.append(dict(id="wl-" + s["id"], deploy=s["deploy"], ops=ops[:1] + ins + ops[1:]))
     return out
 
+def combo(tier, seed):
+    """state class x operation: a seeded sample of the product of independent state attributes - collateral, side of
+    the position, funding owed / earned / none, health (healthy / under-margined / under water), wallet (normal /
+    emptied), whitelisted or not, gate (none / paused / closed / unregistered), fees, partial-liquidation ratio,
+    price band - each reached by its own prefix step, then ONE operation out of every kind by the position's owner or
+    a third party, then the gates lifted and every position closed (which exposes a record corrupted earlier)"""
+    rng = random.Random(seed * 1000003 + 17)
+    out = []
+    n = 700 if tier == "quick" else 6000
+    day = 86400
+    OPS = ("open_same", "open_opp_small", "open_opp_big", "close", "deposit", "withdraw", "liq_other", "liq_self", "pay_funding", "close_limit")
+    for k in range(n):
+        coll = rng.choice(("cw20", "native"))
+        native = coll == "native"
+        side = rng.choice(("buy", "sell"))
+        osd = "sell" if side == "buy" else "buy"
+        funding = rng.choice(("none", "owed", "earned"))
+        health = rng.choice(("healthy", "under", "water"))
+        wallet = rng.choice(("normal", "normal", "emptied")) if not native else "normal"
+        wl = rng.random() < 0.3
+        gate = rng.choice(("none", "none", "paused", "closed", "unregistered"))
+        toll, spread = rng.choice(((0, 0), (5, 10), (1, 0)))
+        plr = rng.choice((0, 25, 100))
+        fluct = rng.choice((0, 0, 5))
+        opk = OPS[k % len(OPS)]
+        ff = lambda m, lev=1000: fee_funds(native, m, lev, toll, spread)
+        ops = [block(15)]
+        if wl:
+            ops += [tx("engine", "add_whitelist", "owner", dict(address="tr1"))]
+        ops += [opn("tr1", side, 2500, 1000, funds=ff(2500)), opn("tr3", side, 300, 300, funds=ff(300, 300))]
+        if funding != "none":
+            # longs owe when the vAMM TWAP is above the oracle TWAP
+            pays_long = funding == "owed"
+            off = (-30 if pays_long else 30) if side == "buy" else (30 if pays_long else -30)
+            ops += [block(901), dict(k="oracle_rel", v="vamm1", off=off), block(day), tx("engine", "pay_funding", "stranger", dict(vamm="vamm1"))]
+        if health != "healthy":
+            push = rng.choice((3300, 3700, 4100, 4500)) if health == "under" else rng.choice((7000, 9000))
+            if fluct:
+                # the band admits 5 % per block: walk there in steps
+                for i in range(0, push, 2000):
+                    ops += [opn("tr2", osd, min(2000, push - i), 100, funds=ff(min(2000, push - i), 100)), block(15)]
+            else:
+                ops += [opn("tr2", osd, push, 100, funds=ff(push, 100))]
+            ops += [block(901), dict(k="oracle_rel", v="vamm1", off=0, interval=1)]
+        else:
+            ops += [opn("tr2", osd, 500, 100, funds=ff(500, 100)), block(15)]
+        if wallet == "emptied":
+            ops += [dict(k="transfer_all", s="tr1", to="stranger", keep=rng.choice((0, 1, 40)))]
+        if gate == "paused":
+            ops += [tx("engine", "set_pause", "owner", dict(pause=True))]
+        elif gate == "closed":
+            ops += [tx("vamm1", "set_open", "owner", dict(open=False))]
+        elif gate == "unregistered":
+            ops += [tx("ifund", "remove_vamm", "owner", dict(vamm="vamm1"))]
+        ops += [query("engine", "margin_ratio", dict(vamm="vamm1", trader="tr1"))]
+        if opk == "open_same":
+            ops += [opn("tr1", side, 200, 500, funds=ff(200, 500))]
+        elif opk == "open_opp_small":
+            ops += [opn("tr1", osd, rng.choice((100, 1000, 2400)), 100)]
+        elif opk == "open_opp_big":
+            ops += [opn("tr1", osd, 4000, 1000, funds=ff(4000))]
+        elif opk == "close":
+            ops += [close("tr1")]
+        elif opk == "close_limit":
+            ops += [close("tr1", limit=1 if side == "buy" else 2 ** 30)]
+        elif opk == "deposit":
+            a = rng.choice((1, 50, 3000))
+            ops += [tx("engine", "deposit_margin", "tr1", dict(vamm="vamm1", amount=a), funds=a if native else 0)]
+        elif opk == "withdraw":
+            ops += [tx("engine", "withdraw_margin", "tr1", dict(vamm="vamm1", amount=rng.choice((1, 100))))]
+        elif opk == "liq_other":
+            ops += [liq("liq", "tr1"), liq("tr3", "tr1")]
+        elif opk == "liq_self":
+            ops += [liq("tr1", "tr1")]
+        else:
+            ops += [block(day), tx("engine", "pay_funding", "stranger", dict(vamm="vamm1"))]
+        ops += [query("engine", "position", dict(vamm="vamm1", trader="tr1"))]
+        # a second action in the same block, by the same account or by somebody else
+        follow = rng.choice(("none", "none", "tr1_same", "tr1_close", "liq_open", "tr3_same", "tr3_close", "liq_again"))
+        if follow == "tr1_same":
+            ops += [opn("tr1", side, 150, 500, funds=ff(150, 500))]
+        elif follow == "tr1_close":
+            ops += [close("tr1")]
+        elif follow == "liq_open":
+            ops += [opn("liq", osd, 200, 200, funds=ff(200, 200)), opn("liq", osd, 100, 200, funds=ff(100, 200))]
+        elif follow == "tr3_same":
+            ops += [opn("tr3", side, 100, 300, funds=ff(100, 300))]
+        elif follow == "tr3_close":
+            ops += [close("tr3")]
+        elif follow == "liq_again":
+            ops += [liq("liq", "tr1"), liq("liq", "tr3")]
+        ops += [block(15)]
+        if gate == "paused":
+            ops += [tx("engine", "set_pause", "owner", dict(pause=False))]
+        elif gate == "closed":
+            ops += [tx("vamm1", "set_open", "owner", dict(open=True))]
+        elif gate == "unregistered":
+            ops += [tx("ifund", "add_vamm", "owner", dict(vamm="vamm1"))]
+        ops += [liq("liq", "tr1"), block(15), close("tr1"), close("tr3"), close("tr2"), close("liq")]
+        out.append(dict(id="combo-%d" % k, deploy=dep(coll, engine=dict(plr=plr), vamms=[dict(toll=toll, spread=spread, fluct=fluct, period=day)]), ops=ops))
+    return out
+
 # ------------------------------------------------------------------------------------------------
 # Round-4 families: states and inputs that no earlier generator reached
 def zsr(tier, seed):
@@ -2091,7 +2193,7 @@ def noallow(tier, seed):
 
 FAMILIES = ["c02lp", "c04", "c04r", "c04p", "c05", "c06", "c06f", "c07", "c08", "c10", "c16", "c17", "c03",
             "zsr", "zsrliq", "attached", "fundzero", "c07edge", "c14f", "c12hi", "c15sub", "selfliq", "c13flat",
-            "dustliq", "fundbig", "fundempty", "c06t", "closelim", "c17q", "c04prepaid", "c05red", "liqfees", "c02tw", "wdrel", "c15fund", "c16pc", "zeroeq", "twoliq", "spike", "fundrnd", "c12wl", "c11pl", "c10adm", "cfgsweep", "timesweep", "amtsweep", "manyfund", "emptywallet", "flatbook", "c15red"]
+            "dustliq", "fundbig", "fundempty", "c06t", "closelim", "c17q", "c04prepaid", "c05red", "liqfees", "c02tw", "wdrel", "c15fund", "c16pc", "zeroeq", "twoliq", "spike", "fundrnd", "c12wl", "c11pl", "c10adm", "cfgsweep", "timesweep", "amtsweep", "manyfund", "emptywallet", "flatbook", "c15red", "combo"]
 
 def pool(tier, seed, cap=200, exclude=(), only_cw20=False):
     """a seeded sample across ALL scenario families: every engine property is also judged on the inputs that
@@ -2165,7 +2267,7 @@ def for_property(pid, tier, seed):
         out = [("c15sub", c15sub(tier, seed)), ("c07edge", c07edge(tier, seed)), ("closelim", closelim(tier, seed)), ("c15fund", c15fund(tier, seed)), ("c15full", c15full(tier, seed))]
     if pid == "C18":
         out = [("c18long", c18long(tier, seed)), ("c15sub", c15sub(tier, seed)), ("c15fund", c15fund(tier, seed)), ("c18feedlong", c18feedlong(tier, seed)), ("c10adm", c10adm(tier, seed))]
-    SWEEPS = {'C05': ['cfgsweep', 'amtsweep', 'manyfund', 'emptywallet'], 'C06': ['cfgsweep', 'timesweep', 'manyfund'], 'C07': ['cfgsweep', 'timesweep', 'manyfund'], 'C02': ['cfgsweep', 'timesweep', 'manyfund', 'flatbook'], 'C04': ['cfgsweep', 'manyfund', 'emptywallet', 'flatbook'], 'C12': ['cfgsweep', 'amtsweep', 'manyfund', 'emptywallet'], 'C11': ['cfgsweep', 'timesweep', 'manyfund', 'flatbook'], 'C15': ['cfgsweep', 'timesweep', 'c15red'], 'C16': ['timesweep', 'cfgsweep'], 'C18': ['timesweep', 'cfgsweep', 'c18sub'], 'C03': ['amtsweep', 'manyfund', 'cfgsweep', 'emptywallet', 'flatbook'], 'C17': ['amtsweep', 'cfgsweep'], 'C20': ['cfgsweep'], 'C08': ['timesweep'], 'C10': ['timesweep', 'flatbook'], 'C01': ['flatbook']}
+    SWEEPS = {'C05': ['cfgsweep', 'amtsweep', 'manyfund', 'emptywallet', 'combo'], 'C06': ['cfgsweep', 'timesweep', 'manyfund', 'combo'], 'C07': ['cfgsweep', 'timesweep', 'manyfund', 'combo'], 'C02': ['cfgsweep', 'timesweep', 'manyfund', 'flatbook', 'combo'], 'C04': ['cfgsweep', 'manyfund', 'emptywallet', 'flatbook', 'combo'], 'C12': ['cfgsweep', 'amtsweep', 'manyfund', 'emptywallet', 'combo'], 'C11': ['cfgsweep', 'timesweep', 'manyfund', 'flatbook', 'combo'], 'C15': ['cfgsweep', 'timesweep', 'c15red'], 'C16': ['timesweep', 'cfgsweep', 'combo'], 'C18': ['timesweep', 'cfgsweep', 'c18sub'], 'C03': ['amtsweep', 'manyfund', 'cfgsweep', 'emptywallet', 'flatbook', 'combo'], 'C17': ['amtsweep', 'cfgsweep'], 'C20': ['cfgsweep'], 'C08': ['timesweep', 'combo'], 'C10': ['timesweep', 'flatbook', 'combo'], 'C01': ['flatbook'], 'C14': ['combo']}
     for fam in SWEEPS.get(pid, []):
         out.append((fam, globals()[fam](tier, seed)))
     if pid in ENGINE_PROPS:
